@@ -24,4 +24,6 @@ let table : (Stdlib.String.t * (z list -> z list)) list = [   (* Stdlib.: the ex
   ("paths", run_paths);
   ("proxy", run_proxy);
   ("staticdecl", run_staticdecl);
+  ("xmidoc_enc", run_xmidoc_enc);
+  ("xmidoc_dec", run_xmidoc_dec);
 ]
